@@ -622,6 +622,20 @@ mod request {
     }
 
     impl Body {
+        /// Discards what is left unread of a HTTP/1 body, so the connection can be used for the next
+        /// request. The bodies of the other HTTP versions have their own streams; nothing is done.
+        ///
+        /// # Errors
+        ///
+        /// See [`super::Http1Body::drain()`]. If an error is returned,
+        /// no more requests can be read from the connection.
+        #[inline]
+        pub async fn drain(&mut self) -> io::Result<()> {
+            match self {
+                Self::Http1(h1) => h1.drain().await,
+                _ => Ok(()),
+            }
+        }
         /// Reads all bytes from [`Body`] to a [`Bytes`].
         ///
         /// # Errors
@@ -693,6 +707,8 @@ mod response {
         offset: usize,
 
         content_length: usize,
+        /// How many bytes of the declared body have not yet been taken from `reader`.
+        unread: usize,
         // also update Debug implementation when adding fields
     }
     impl<R: AsyncRead + Unpin> Http1Body<R> {
@@ -703,10 +719,45 @@ mod response {
         pub fn new(reader: Arc<Mutex<R>>, bytes: Bytes, content_length: usize) -> Self {
             Self {
                 reader,
+                unread: content_length.saturating_sub(bytes.len()),
                 bytes,
                 offset: 0,
 
                 content_length,
+            }
+        }
+        /// Reads and discards the part of the declared body which is still on the connection,
+        /// so the next request can be read from it.
+        /// Does nothing if the whole body has been read.
+        ///
+        /// # Errors
+        ///
+        /// Returns an error if the connection ended or 30 seconds passed
+        /// before the rest of the body arrived, or if reading failed.
+        /// The connection then can't be used for any more requests.
+        pub async fn drain(&mut self) -> io::Result<()> {
+            if self.unread == 0 {
+                return Ok(());
+            }
+            let mut reader = self.reader.lock().await;
+            let mut buffer = [0; 4096];
+            let unread = &mut self.unread;
+            let discard = async {
+                while *unread > 0 {
+                    let len = buffer.len().min(*unread);
+                    match reader.read(&mut buffer[..len]).await? {
+                        0 => return Err(io::Error::from(io::ErrorKind::UnexpectedEof)),
+                        read => *unread -= read,
+                    }
+                }
+                Ok(())
+            };
+            match timeout(Duration::from_secs(30), discard).await {
+                Ok(result) => result,
+                Err(_) => Err(io::Error::new(
+                    io::ErrorKind::TimedOut,
+                    "Discarding the unread request body timed out.",
+                )),
             }
         }
         /// Reads all bytes from `self` to a [`Bytes`].
@@ -764,7 +815,8 @@ mod response {
                 (self.reader),
                 (self.bytes, &"[internal buffer]".as_clean()),
                 (self.offset),
-                (self.content_length)
+                (self.content_length),
+                (self.unread)
             );
             s.finish()
         }
@@ -798,6 +850,7 @@ mod response {
                 drop(lock);
                 let difference = buf.filled().len() - size;
                 self.offset += difference;
+                self.unread = self.unread.saturating_sub(difference);
                 if self.offset == self.content_length {
                     return Poll::Ready(Ok(()));
                 }
